@@ -447,6 +447,16 @@ func (context *svgContext) resolveUse(node *cascadedNode, defs definitions) (*sv
 		if err != nil {
 			return nil, err
 		}
+		// the fetched content is resolved against the same base URL :
+		// a file using itself would be fetched again and again
+		if context.inUseIDs.Has(url) {
+			return nil, fmt.Errorf("invalid recursive <use>")
+		}
+		context.inUseIDs.Add(url)
+		defer func() {
+			delete(context.inUseIDs, url)
+		}()
+
 		content, err := context.urlFetcher(url)
 		if err != nil {
 			logger.WarningLogger.Printf("SVG: fetching <use> content: %s", err)
